@@ -71,6 +71,8 @@ def onSeg (cur : Nat) : Step → Bool
   | .bsu s _ _ => s == cur
   | .sstTmp s _ => s == cur
   | .sstRename s => s == cur
+  | .sfmTmp s _ => s == cur
+  | .sfmRename s => s == cur
   | .sfmTrunc s => s == cur
   | .sfmWrite s _ => s == cur
   | _ => false
